@@ -1,6 +1,7 @@
 package main
 
 import (
+	"math/rand"
 	"encoding/base64"
 	"encoding/json"
 	"fmt"
@@ -239,6 +240,21 @@ func (r *histRun) query(q M, idx int) interface{} {
 			return M{"err": err.Error()}
 		}
 		return canonEntity(e)
+	case "context":
+		ds := r.h.Dsm.GetDataset(gets(q, "ds"))
+		if ds == nil {
+			return M{"err": "nods"}
+		}
+		// the namespaces a reader of this dataset is handed: the dataset's public namespaces, or all of them
+		if len(ds.PublicNamespaces) == 0 {
+			return M{"public": nil}
+		}
+		vals := []string{}
+		for _, v := range ds.GetContext().Namespaces {
+			vals = append(vals, v)
+		}
+		sort.Strings(vals)
+		return M{"public": vals}
 	case "catalogue":
 		names := []string{}
 		for _, n := range r.h.Dsm.GetDatasetNames() {
@@ -412,6 +428,8 @@ func runStoreHist(c *Ctx, in M) (M, interface{}) {
 		}
 	}()
 	r.h.Store.NamespaceManager.AssertPrefixMappingForExpansion(storeNS) // ns3
+	r.h.Store.NamespaceManager.AssertPrefixMappingForExpansion("http://t/") // ns4, ns5: namespaces a dataset may publish
+	r.h.Store.NamespaceManager.AssertPrefixMappingForExpansion("http://u/")
 	ops := getl(in, "ops")
 	r.times = make([]int64, len(ops))
 	obs := []interface{}{}
@@ -425,7 +443,7 @@ func runStoreHist(c *Ctx, in M) (M, interface{}) {
 		for i, o := range ops {
 			op := o.(map[string]interface{})
 			switch gets(op, "op") {
-			case "createDs", "store", "txn", "deleteDs", "renameDs":
+			case "createDs", "store", "txn", "deleteDs", "renameDs", "setPublicNs":
 				r.mutate(i, op)
 			case "msrun":
 				obs = append(obs, r.msrun(op))
@@ -561,6 +579,23 @@ func (r *histRun) mutate(i int, op M) {
 		for _, p := range getl(op, "parts") {
 			r.noteIDs(op, getl(p.(map[string]interface{}), "ents"))
 		}
+	case "setPublicNs":
+		// what a client does to change a dataset's public namespaces: re-post its entity in core.Dataset
+		name := gets(op, "name")
+		core := r.h.Dsm.GetDataset("core.Dataset")
+		e, err := r.h.Store.GetEntity("ns0:"+name, []string{"core.Dataset"}, true)
+		if r.h.Dsm.GetDataset(name) == nil || core == nil || err != nil || e == nil || e.Recorded == 0 || e.IsDeleted {
+			op["rc"] = "nods"
+			return
+		}
+		arr := []interface{}{}
+		for _, n := range strs(getl(op, "ns")) {
+			arr = append(arr, n)
+		}
+		e.Properties["ns0:publicNamespaces"] = arr
+		if err := core.StoreEntities([]*server.Entity{e}); err != nil {
+			op["rc"] = "err"
+		}
 	case "deleteDs":
 		if err := r.h.Dsm.DeleteDataset(gets(op, "name")); err != nil {
 			op["rc"] = "err"
@@ -648,6 +683,137 @@ func (g *storeGen) undeleteSameLength(id string) (M, M) {
 	a := M{"id": id, "deleted": true, "props": M{}, "refs": M{}}
 	b := M{"id": id, "deleted": false, "props": M{"ns3:p": "abcde"}, "refs": M{}}
 	return a, b
+}
+
+// sameLengthID returns another known identifier with the same number of characters.
+func (g *storeGen) sameLengthID(id string) (string, bool) {
+	cands := []string{}
+	for _, x := range g.ids {
+		if x != id && len(x) == len(id) {
+			cands = append(cands, x)
+		}
+	}
+	if len(cands) == 0 {
+		return "", false
+	}
+	return cands[g.c.Rng.Intn(len(cands))], true
+}
+
+func sameLengthValue(r *rand.Rand, v interface{}) (interface{}, bool) {
+	switch x := v.(type) {
+	case string:
+		if len(x) == 0 {
+			return nil, false
+		}
+		b := []byte(x)
+		last := b[len(b)-1]
+		switch {
+		case last >= '0' && last <= '8':
+			b[len(b)-1] = last + 1
+		case last == '9':
+			b[len(b)-1] = '0'
+		case last == 'x':
+			b[len(b)-1] = 'y'
+		default:
+			b[len(b)-1] = 'x'
+		}
+		return string(b), true
+	case int:
+		if x%10 == 9 {
+			return x - 1, true
+		}
+		return x + 1, true
+	case float64:
+		return sameLengthValue(r, int(x))
+	case []interface{}:
+		if len(x) == 0 {
+			return nil, false
+		}
+		i := []int{0, len(x) - 1, r.Intn(len(x))}[r.Intn(3)]
+		nv, ok := sameLengthValue(r, x[i])
+		if !ok {
+			return nil, false
+		}
+		cp := append([]interface{}{}, x...)
+		cp[i] = nv
+		return cp, true
+	}
+	return nil, false
+}
+
+// mutateSameLength changes exactly one thing of an entity — one reference target (single, or the first / last /
+// some member of an array), or one property value (or one member of an array value) — so that the serialised
+// length stays the same: the version differs, and only a comparison that looks at every member of every value
+// can tell.
+func (g *storeGen) mutateSameLength(e M) (M, bool) {
+	r := g.c.Rng
+	props, _ := e["props"].(M)
+	refs, _ := e["refs"].(M)
+	np, nr := M{}, M{}
+	for k, v := range props {
+		np[k] = v
+	}
+	for k, v := range refs {
+		nr[k] = v
+	}
+	keysOf := func(m M) []string {
+		ks := []string{}
+		for k := range m {
+			ks = append(ks, k)
+		}
+		sort.Strings(ks)
+		return ks
+	}
+	tryRefs := func() bool {
+		ks := keysOf(nr)
+		if len(ks) == 0 {
+			return false
+		}
+		k := ks[r.Intn(len(ks))]
+		switch x := nr[k].(type) {
+		case string:
+			if n, ok := g.sameLengthID(x); ok {
+				nr[k] = n
+				return true
+			}
+		case []interface{}:
+			if len(x) == 0 {
+				return false
+			}
+			i := []int{0, len(x) - 1, r.Intn(len(x))}[r.Intn(3)]
+			if s, ok := x[i].(string); ok {
+				if n, ok := g.sameLengthID(s); ok {
+					cp := append([]interface{}{}, x...)
+					cp[i] = n
+					nr[k] = cp
+					return true
+				}
+			}
+		}
+		return false
+	}
+	tryProps := func() bool {
+		ks := keysOf(np)
+		if len(ks) == 0 {
+			return false
+		}
+		k := ks[r.Intn(len(ks))]
+		if nv, ok := sameLengthValue(r, np[k]); ok {
+			np[k] = nv
+			return true
+		}
+		return false
+	}
+	ok := false
+	if r.Intn(2) == 0 {
+		ok = tryRefs() || tryProps()
+	} else {
+		ok = tryProps() || tryRefs()
+	}
+	if !ok {
+		return nil, false
+	}
+	return M{"id": e["id"], "deleted": e["deleted"], "props": np, "refs": nr}, true
 }
 
 func (g *storeGen) batch() []M {
@@ -866,6 +1032,18 @@ func genStore(c *Ctx, profile string) {
 						g.dss[i] = to
 						g.allNames = append(g.allNames, to)
 					}
+				case m < 6 && c.Rng.Intn(2) == 0:
+					// public namespaces changed (grown, shrunk, emptied) through core.Dataset, often followed by a restart
+					name := g.dss[c.Rng.Intn(len(g.dss))]
+					ns := [][]string{{}, {"http://s/"}, {"http://s/", "http://t/"}, {"http://t/"}, {"http://t/", "http://u/", "http://s/"}}[c.Rng.Intn(5)]
+					ops = append(ops, M{"op": "setPublicNs", "name": name, "ns": ns})
+					if c.Rng.Intn(2) == 0 {
+						ops = append(ops, M{"op": "reopen"})
+					}
+					ops = append(ops, M{"op": "q", "q": "context", "ds": name})
+					if profile != "c04" { // the catalogue after a crash inside create/rename/delete is not part of C04's claim
+						ops = append(ops, M{"op": "q", "q": "catalogue", "names": []string{name}})
+					}
 				case m < 6:
 					ops = append(ops, M{"op": "gc"})
 				default:
@@ -906,7 +1084,20 @@ func genStore(c *Ctx, profile string) {
 			}
 			switch r := c.Rng.Intn(10); {
 			case r < 6:
-				ops = append(ops, M{"op": "store", "ds": g.dss[c.Rng.Intn(len(g.dss))], "ents": g.batch()})
+				ds := g.dss[c.Rng.Intn(len(g.dss))]
+				b := g.batch()
+				ops = append(ops, M{"op": "store", "ds": ds, "ents": b})
+				if c.Rng.Intn(3) == 0 {
+					// a follow-up version that differs in exactly one member of one value and has the same serialised
+					// length (in a batch of its own, or behind the original inside one batch)
+					if m, ok := g.mutateSameLength(b[c.Rng.Intn(len(b))]); ok {
+						if c.Rng.Intn(3) == 0 {
+							ops[len(ops)-1] = M{"op": "store", "ds": ds, "ents": append(append([]M{}, b...), m)}
+						} else {
+							ops = append(ops, M{"op": "store", "ds": ds, "ents": []M{m}})
+						}
+					}
+				}
 			case r < 7:
 				id := g.ids[c.Rng.Intn(len(g.ids))]
 				a, b := g.undeleteSameLength(id)
